@@ -2031,6 +2031,297 @@ def _rule7(ctx, rep):
                 r.fail(key, where(f, verdicts[0]), f'verdict expression of rule_06 not understood: {e_}')
 
 
+# ---------------------------------------------------------------------------------------------------------------
+# R-C16-8: a reference resolves only when something was found (added after seeded change C16-2)
+
+
+class _Sym:
+    """one element of a scenario: an algorithm of the referenced factory, a state vector of it, or a value reference"""
+
+    def __init__(self, role, **kw):
+        self.role = role
+        self.__dict__.update(kw)
+
+
+def _resolve_scenarios():
+    """(algorithms, expectation) - each algorithm is (name matches, [(state vector name matches, has the feature)])"""
+    out = []
+    for algs in ([], [(False, [(True, True)])], [(True, [])], [(True, [(False, True)])], [(True, [(True, False)])],
+                 [(True, [(False, True), (False, True)])], [(False, [(True, True)]), (True, [(False, False)])]):
+        out.append(algs)
+    return out
+
+
+def _run_resolve(fn, algs):
+    """evaluate the resolver of rule_11 on one scenario; returns the list of verdicts it reports (appended to a list it
+    does not own, or returned).  Raises _NotUnderstood for anything outside the small language the resolver is written in."""
+    verdicts = []
+    env = {}
+    params = [a.arg for a in fn.node.args.args]
+
+    def role_of_iter(e):
+        names = {n.func.attr for n in ast.walk(e) if isinstance(n, ast.Call) and isinstance(n.func, ast.Attribute)}
+        names |= {n.func.id for n in ast.walk(e) if isinstance(n, ast.Call) and isinstance(n.func, ast.Name)}
+        if 'routines' in names:
+            return 'alg'
+        if 'state_vectors' in names:
+            return 'sv'
+        if 'as_vref' in names:
+            return 'vref'
+        return None
+
+    def elements(e, env):
+        role = role_of_iter(e)
+        if role == 'alg':
+            return [_Sym('alg', match=m, svs=svs) for m, svs in algs]
+        if role == 'vref':
+            return [_Sym('vref')]
+        if role == 'sv':
+            owner = [v for v in env.values() if isinstance(v, _Sym) and v.role == 'alg']
+            base = [n.id for n in ast.walk(e) if isinstance(n, ast.Name) and isinstance(env.get(n.id), _Sym) and env[n.id].role == 'alg']
+            if not base:
+                raise _NotUnderstood('state vectors of what? ' + norm(e))
+            return [_Sym('sv', match=m, feat=ft) for m, ft in env[base[0]].svs]
+        if isinstance(e, ast.Name) and isinstance(env.get(e.id), list):
+            return list(env[e.id])
+        raise _NotUnderstood('iteration over ' + norm(e)[:50])
+
+    def root(e):
+        while isinstance(e, (ast.Attribute, ast.Call, ast.Subscript)):
+            e = e.func if isinstance(e, ast.Call) else e.value
+        return e.id if isinstance(e, ast.Name) else None
+
+    def val(e, env):
+        if isinstance(e, ast.Constant):
+            return e.value
+        if isinstance(e, ast.Name):
+            if e.id in env:
+                return env[e.id]
+            raise _NotUnderstood(e.id)
+        if isinstance(e, ast.UnaryOp) and isinstance(e.op, ast.Not):
+            return not val(e.operand, env)
+        if isinstance(e, ast.UnaryOp) and isinstance(e.op, ast.USub):
+            return -val(e.operand, env)
+        if isinstance(e, ast.BoolOp):
+            v = None
+            for x in e.values:
+                v = val(x, env)
+                if isinstance(e.op, ast.And) and not v or isinstance(e.op, ast.Or) and v:
+                    return v
+            return v
+        if isinstance(e, ast.IfExp):
+            return val(e.body, env) if val(e.test, env) else val(e.orelse, env)
+        if isinstance(e, ast.BinOp) and isinstance(e.op, (ast.Add, ast.Sub)):
+            a, b = val(e.left, env), val(e.right, env)
+            return a + b if isinstance(e.op, ast.Add) else a - b
+        if isinstance(e, (ast.List, ast.Tuple)):
+            return [val(x, env) for x in e.elts]
+        if isinstance(e, ast.Subscript):
+            base = val(e.value, env)
+            if not isinstance(base, list) or isinstance(e.slice, ast.Slice):
+                raise _NotUnderstood(norm(e))
+            return base[val(e.slice, env)]
+        if isinstance(e, ast.Compare) and len(e.ops) == 1:
+            op, a, b = e.ops[0], e.left, e.comparators[0]
+            ra, rb = env.get(root(a)), env.get(root(b))
+            syms = [x for x in (ra, rb) if isinstance(x, _Sym)]
+            if syms:
+                if isinstance(op, (ast.In, ast.NotIn)):
+                    # <feature of the value reference> in <state vector>
+                    if isinstance(rb, _Sym) and rb.role == 'sv':
+                        return rb.feat if isinstance(op, ast.In) else not rb.feat
+                    raise _NotUnderstood(norm(e))
+                if isinstance(op, (ast.Eq, ast.NotEq)):
+                    # names compared: the candidate (algorithm / state vector of the scenario) against the reference
+                    cand = [x for x in syms if x.role in ('alg', 'sv')]
+                    if len(cand) != 1:
+                        raise _NotUnderstood(norm(e))
+                    return cand[0].match if isinstance(op, ast.Eq) else not cand[0].match
+                raise _NotUnderstood(norm(e))
+            x, y = val(a, env), val(b, env)
+            table = {ast.Eq: x == y, ast.NotEq: x != y, ast.Is: x is y, ast.IsNot: x is not y}
+            if type(op) in table:
+                return table[type(op)]
+            if isinstance(op, (ast.Lt, ast.LtE, ast.Gt, ast.GtE)) and all(isinstance(v, int) for v in (x, y)):
+                return {ast.Lt: x < y, ast.LtE: x <= y, ast.Gt: x > y, ast.GtE: x >= y}[type(op)]
+            raise _NotUnderstood(norm(e))
+        if isinstance(e, (ast.GeneratorExp, ast.ListComp)):
+            out = []
+
+            def gen(i, env):
+                if i == len(e.generators):
+                    out.append(val(e.elt, env))
+                    return
+                g = e.generators[i]
+                if not isinstance(g.target, ast.Name):
+                    raise _NotUnderstood(norm(g.target))
+                for el in elements(g.iter, env):
+                    env2 = dict(env)
+                    env2[g.target.id] = el
+                    if all(val(c, env2) for c in g.ifs):
+                        gen(i + 1, env2)
+
+            gen(0, env)
+            return out
+        if isinstance(e, ast.Call) and isinstance(e.func, ast.Name) and e.func.id in ('all', 'any', 'len', 'bool', 'list', 'sum') and len(e.args) == 1 and not e.keywords:
+            a = val(e.args[0], env)
+            if not isinstance(a, list):
+                if e.func.id == 'bool':
+                    return bool(a)
+                raise _NotUnderstood(norm(e))
+            return {'all': all, 'any': any, 'len': len, 'bool': bool, 'list': list, 'sum': sum}[e.func.id](a)
+        if isinstance(e, ast.Call) and isinstance(e.func, ast.Name) and e.func.id == 'next' and len(e.args) == 2:
+            a = val(e.args[0], env)
+            return a[0] if a else val(e.args[1], env)
+        if isinstance(e, ast.Call):
+            return _Sym('opaque')  # task_name(...), ref.factory(fn), ...: objects the verdict is not computed from
+        if isinstance(e, ast.Attribute):
+            return _Sym('opaque')
+        raise _NotUnderstood(norm(e)[:60])
+
+    class _Ret(Exception):
+        pass
+
+    class _Brk(Exception):
+        pass
+
+    class _Cont(Exception):
+        pass
+
+    def truth(v):
+        if isinstance(v, _Sym):
+            raise _NotUnderstood('truth of an opaque object')
+        return bool(v)
+
+    def run(body, env):
+        for s in body:
+            if isinstance(s, ast.Pass):
+                continue
+            if isinstance(s, ast.Assign) and len(s.targets) == 1:
+                t = s.targets[0]
+                v = val(s.value, env)
+                if isinstance(t, ast.Name):
+                    env[t.id] = v
+                elif isinstance(t, ast.Subscript) and isinstance(env.get(root(t)), list) and isinstance(t.value, ast.Name):
+                    env[t.value.id][val(t.slice, env)] = v
+                else:
+                    raise _NotUnderstood(norm(s)[:60])
+            elif isinstance(s, ast.AugAssign) and isinstance(s.target, ast.Name) and isinstance(s.op, (ast.Add, ast.Sub)):
+                d = val(s.value, env)
+                cur = env.get(s.target.id)
+                if isinstance(cur, list) and isinstance(s.op, ast.Add) and isinstance(d, list):
+                    cur.extend(d)
+                else:
+                    env[s.target.id] = cur + d if isinstance(s.op, ast.Add) else cur - d
+            elif isinstance(s, ast.AugAssign) and isinstance(s.target, ast.Name) and isinstance(s.op, (ast.BitAnd, ast.BitOr)):
+                a, b = truth(env[s.target.id]), truth(val(s.value, env))
+                env[s.target.id] = (a and b) if isinstance(s.op, ast.BitAnd) else (a or b)
+            elif isinstance(s, ast.Expr) and isinstance(s.value, ast.Call):
+                c = s.value
+                if isinstance(c.func, ast.Attribute) and c.func.attr in ('append', 'extend') and isinstance(c.func.value, ast.Name) and len(c.args) == 1:
+                    v = val(c.args[0], env)
+                    tgt = c.func.value.id
+                    if tgt in env and isinstance(env[tgt], list):
+                        env[tgt].append(v) if c.func.attr == 'append' else env[tgt].extend(v)
+                    elif tgt not in env:
+                        verdicts.append(v) if c.func.attr == 'append' else verdicts.extend(v)  # the rule's verdict list
+                    else:
+                        raise _NotUnderstood(norm(s)[:60])
+                elif norm(c.func).split('.')[0] in ('logging', 'log', 'LOG', 'print'):
+                    continue
+                else:
+                    raise _NotUnderstood(norm(s)[:60])
+            elif isinstance(s, ast.Expr) and isinstance(s.value, ast.Constant):
+                continue
+            elif isinstance(s, ast.If):
+                run(s.body if truth(val(s.test, env)) else s.orelse, env)
+            elif isinstance(s, ast.For) and isinstance(s.target, ast.Name):
+                broke = False
+                for el in elements(s.iter, env):
+                    env[s.target.id] = el
+                    try:
+                        run(s.body, env)
+                    except _Brk:
+                        broke = True
+                        break
+                    except _Cont:
+                        continue
+                if not broke:
+                    run(s.orelse, env)
+            elif isinstance(s, ast.Break):
+                raise _Brk()
+            elif isinstance(s, ast.Continue):
+                raise _Cont()
+            elif isinstance(s, ast.Return):
+                if s.value is not None:
+                    verdicts.append(val(s.value, env))
+                raise _Ret()
+            else:
+                raise _NotUnderstood(norm(s)[:60])
+
+    for p_ in params:
+        env[p_] = _Sym('ref')
+    try:
+        run(fn.node.body, env)
+    except _Ret:
+        pass
+    except (_Brk, _Cont):
+        raise _NotUnderstood('break/continue outside a loop')
+    except (TypeError, IndexError, KeyError, AttributeError) as e_:
+        raise _NotUnderstood(f'{type(e_).__name__}: {e_}')
+    return verdicts
+
+
+def _rule8(ctx, rep):
+    """added after seeded change C16-2: rule_11's bookkeeping (unresolved until found) was folded into
+    all(<feature in sv> for sv in ... if <names match>), which is True when nothing matches - a reference to a state
+    vector the algorithm does not have resolved "successfully" """
+    prog = ctx.prog
+    f = prog.nfunc('dawgie.tools.compliant.rule_11')
+    rep.analysed(f)
+    with rep.rule(
+        'R-C16-8',
+        'the resolver of rule_11 reports a reference as resolved only if an algorithm of the referenced factory has the name and one of its state vectors has the name and the feature (the resolver is evaluated on seven scenarios: no algorithm, no algorithm of that name, no state vector, no state vector of that name, feature missing, ...)',
+        floor=1,
+        breaks='a V_REF/SV_REF/ALG_REF that names something the referenced algorithm does not produce passes the gate; the pipeline then looks for a state vector or value that never exists',
+    ) as r:
+        # by role: the nested function handed to _walk as the reference hook; else rule_11 itself
+        hook = None
+        for c in f.calls():
+            for k in c.keywords:
+                if k.arg == 'ifref' and isinstance(k.value, ast.Name):
+                    hook = f.children.get(k.value.id) or hook
+        r.instance()
+        key = f'{f.qname}:resolved-only-when-found'
+        if hook is None:
+            r.note('reference hook of rule_11 not found by role; not decided')
+            return
+        rep.analysed(hook)
+        bad = []
+        try:
+            for algs in _resolve_scenarios():
+                vs = _run_resolve(hook, algs)
+                if not vs:
+                    continue
+                if any(isinstance(v, _Sym) for v in vs):
+                    raise _NotUnderstood('opaque verdict')
+                verdict = all(vs)
+                found = any(m and any(sm and ft for sm, ft in svs) for m, svs in algs)
+                if verdict and not found:
+                    bad.append(algs)
+        except _NotUnderstood as e_:
+            r.note(f'resolver of rule_11 is outside the evaluated language ({e_}); not decided')
+            return
+        r.check(
+            not bad,
+            key,
+            where(hook),
+            'unresolved in every scenario without a matching algorithm / state vector / feature',
+            f'{hook.qname} reports a reference as resolved in scenario(s) {bad[:3]} [(algorithm name matches, [(state vector name matches, has feature)])]: '
+            'nothing that matches the reference exists, yet the rule passes (vacuous truth)',
+        )
+
+
 def check(ctx):
     rep = Report(
         PID,
@@ -2066,6 +2357,7 @@ def check(ctx):
     _rule5(ctx, rep)
     _rule6(ctx, rep)
     _rule7(ctx, rep)
+    _rule8(ctx, rep)
     return rep
 
 
@@ -2162,6 +2454,10 @@ VARIANTS = [
     V('AE root appended to sys.path', 'B', 'tools/compliant.py', 'main', 'sys.path.insert(\n        0, ', 'sys.path.insert(\n        len(sys.path), ', 'R-C16-5'),
     V('rule_07 only dumps', 'B', 'tools/compliant.py', 'rule_07', 's = pickle.dumps(v)\n            vp = pickle.loads(s)  # noqa: F841', 'pickle.dumps(v)', 'R-C16-4'),
     V('rule_07 round trip in one expression', 'N', 'tools/compliant.py', 'rule_07', 's = pickle.dumps(v)\n            vp = pickle.loads(s)  # noqa: F841', 'pickle.loads(pickle.dumps(v))', None),
+    V('rule_11 starts from "algorithm found"', 'B', _C, 'rule_11', 'resolved = [False]', 'resolved = [True]', 'R-C16-8'),
+    V('rule_11: a value reference is resolved until proven otherwise', 'B', _C, 'rule_11', 'resolved.append(False)', 'resolved.append(True)', 'R-C16-8'),
+    V('rule_11 folded into all() over the matching state vectors', 'B', _C, 'rule_11', "index += 1 resolved.append(False) for sv in alg.state_vectors(): if vref.item.name() == sv.name(): resolved[index] = True resolved.append(vref.feat in sv) index += 1", "resolved.append(all(vref.feat in sv for sv in alg.state_vectors() if vref.item.name() == sv.name()))", 'R-C16-8'),
+    V('rule_11 with any()/all() over the matching state vectors', 'N', _C, 'rule_11', "index += 1 resolved.append(False) for sv in alg.state_vectors(): if vref.item.name() == sv.name(): resolved[index] = True resolved.append(vref.feat in sv) index += 1", "hits = [vref.feat in sv for sv in alg.state_vectors() if vref.item.name() == sv.name()]\n                    resolved.append(bool(hits) and all(hits))", 'R-C16-8'),
     # ---- R-C16-1
     V('regress branch uses the routine of another branch again', 'B', _C, '_walk', 'for ref in r.feedback():', 'for ref in a.feedback():', 'R-C16-1'),
     V('task branch reads the regression variable', 'B', _C, '_walk', 'for ref in a.previous():', 'for ref in r.previous():', 'R-C16-1'),
